@@ -14,6 +14,9 @@ ifeq ($(FLAVOUR),asan)
   SAN := -fsanitize=address,undefined -fno-sanitize-recover=undefined -fno-sanitize=vptr
 else ifeq ($(FLAVOUR),tsan)
   SAN := -fsanitize=thread -DSIM_TSAN=1
+  WRAPOPS := load store exchange fetch_add fetch_sub compare_exchange_strong compare_exchange_weak
+  WRAPFLAGS := $(foreach n,8 32 64,$(foreach o,$(WRAPOPS),-Wl,--wrap=__tsan_atomic$(n)_$(o)))
+  EXTRAOBJ := $(B)/sim_tsan_atomic_wrap.o
 else
   SAN :=
 endif
@@ -34,11 +37,11 @@ $(B)/%.o: harness/%.cpp
 	@mkdir -p $(B)
 	$(CXX) $(HFLAGS) -MMD -MP -c $< -o $@
 
-$(B)/%: $(B)/%.o $(SIMOBJ)
-	$(CXX) $(SAN) -o $@ $< $(SIMOBJ) $(LIBS)
+$(B)/%: $(B)/%.o $(SIMOBJ) $(EXTRAOBJ)
+	$(CXX) $(SAN) $(WRAPFLAGS) -o $@ $< $(SIMOBJ) $(EXTRAOBJ) $(LIBS)
 
 .PRECIOUS: $(B)/%.o $(B)/sim_%.o
-.SECONDARY: $(SIMOBJ)
+.SECONDARY: $(SIMOBJ) $(EXTRAOBJ)
 -include $(wildcard $(B)/*.d)
 
 clean:
